@@ -173,6 +173,13 @@ def phase1(case):
             core.Field(version=case['v'], validation_level=case['level'])
     if k == 'named_component':
         return core.Component(case['name'], datatype=case['dt'], version=case['v'], validation_level=case['level'])
+    if k == 'z_field':
+        # a field of a locally defined segment with a datatype chosen by the caller, valued with an object of that datatype
+        seg = core.Segment('ZPD', version=case['v'], validation_level=case['level'])
+        f = core.Field('ZPD_%d' % case['i'], datatype=case['dt'], version=case['v'], validation_level=case['level'])
+        f.value = datatype_factory(case['dt'], case['value'], case['v'], case['level'])
+        seg.add(f)
+        return seg
     raise ValueError(k)
 
 
@@ -236,6 +243,9 @@ def phase2(case, state):
     if k == 'msh_field':
         f = getattr(state, case['fname'])[0]
         return {'er7': state.to_er7(R.full(R.DEFAULT_EC)), 'field': f.to_er7(), 'leaves': [len(c.children) for c in f.children]}
+    if k == 'z_field':
+        errs, warns = _report(state)
+        return {'er7': state.to_er7(R.full(R.DEFAULT_EC)), 'attrs': _tree_attrs(state), 'report': (errs, len(warns))}
     if k in ('unknown_field', 'named_component'):
         return {'er7': state.to_er7(R.full(R.DEFAULT_EC)), 'attrs': _tree_attrs(state), 'datatype': state.datatype}
     raise ValueError(k)
@@ -303,6 +313,7 @@ def replay(case, acc):
 # ---------------------------------------------------------------------------------------------
 
 BIG = 'x' * 250
+BIG2 = 'x' * 1200        # (longer than the 999 characters that v2.6 gives an ST)
 
 
 def c17_leaf(v, dt, ec):
@@ -310,7 +321,7 @@ def c17_leaf(v, dt, ec):
     if dt in ('NM', 'SI', 'DT', 'TM', 'DTM'):
         return st.one_of(base, base, base, st.just(BIG))
     if dt in ('ST', 'TX', 'FT', 'ID', 'IS'):
-        return st.one_of(base, base, base, base, st.just(BIG))
+        return st.one_of(base, base, base, base, st.just(BIG), st.just(BIG2))
     return base
 
 
@@ -322,7 +333,7 @@ def configs(draw):
 @st.composite
 def cases(draw, cells, mcells):
     k = draw(st.sampled_from(['parse_message', 'parse_message', 'parse_segment', 'parse_segment', 'parse_field', 'parse_component',
-                              'message_model', 'factory', 'factory', 'elements', 'unknown_component', 'unknown_field', 'named_component', 'msh_field']))
+                              'message_model', 'factory', 'factory', 'elements', 'unknown_component', 'unknown_field', 'named_component', 'msh_field', 'z_field']))
     cfg = draw(configs())
     level = draw(st.sampled_from([1, 2]))
     if k == 'parse_message':
@@ -368,7 +379,7 @@ def cases(draw, cells, mcells):
         # a string assigned to a field of a parent-less segment is split with the *default* delimiters (documented):
         # the value therefore holds no character of any delimiter set
         dt0 = lit.first_leaf_dt(T, v, ref)
-        value = draw(st.one_of(st.sampled_from([lit.valid(dt0, 0), lit.valid(dt0, 1)]), st.sampled_from(['abc', 'x1', BIG, '12', '2020'])))
+        value = draw(st.one_of(st.sampled_from([lit.valid(dt0, 0), lit.valid(dt0, 1)]), st.sampled_from(['abc', 'x1', BIG, BIG2, '12', '2020'])))
         if any(c in ANY_DELIMITER for c in value):
             value = '12' if dt0 in ('NM', 'SI') else 'abc'          # (12.5, 12:30 ... with the set made of . : + # ?)
         case = {'kind': k, 'v': v, 'seg': s, 'fname': fname, 'value': value, 'level': level}
@@ -379,6 +390,10 @@ def cases(draw, cells, mcells):
         if fname == 'MSH_2' and T.vkey(v) >= [2, 7] and draw(st.booleans()):
             text += '#'
         case = {'kind': k, 'v': v, 'fname': fname, 'text': text, 'how': draw(st.sampled_from(['value', 'assign', 'component', 'path'])), 'level': level}
+    elif k == 'z_field':
+        v = draw(st.sampled_from(T.VERSIONS))
+        dt = draw(st.sampled_from(sorted(T.lib(v).BASE_DATATYPES)))
+        case = {'kind': k, 'v': v, 'dt': dt, 'i': draw(st.integers(1, 5)), 'value': lit.valid(dt, draw(st.integers(0, 2))), 'level': level}
     elif k == 'unknown_field':
         v = draw(st.sampled_from(T.VERSIONS))
         dt = draw(st.sampled_from([None, None, 'ST', 'varies'] + sorted(T.complex_datatypes(v))[:4]))
